@@ -315,6 +315,12 @@ func ruleAdapterForwards(c *core.Ctx, rule string) {
 		if pkgPath != parserPkg || len(cb.Params) != 2 {
 			continue
 		}
+		// the adapter is the callback the channel parser itself makes: one that can reach a channel send. Other
+		// callbacks of the package (a helper that collects records into a slice, a wrapper that counts and hands on)
+		// are not adapters
+		if !reachesSend(c.P, cb, 0, map[*ssa.Function]bool{}) {
+			continue
+		}
 		n++
 		fname := core.FuncName(cb)
 		x := newExec(c)
@@ -353,4 +359,36 @@ func ruleAdapterForwards(c *core.Ctx, rule string) {
 	if n == 0 {
 		c.Undecide(rule, "parser", "universe", "-", "no ParseCallback is created in package parser: the channel parser's adapter was not found", nil)
 	}
+}
+
+// reachesSend: fn, a closure it makes or a function of the tree it calls contains a channel send.
+func reachesSend(p *core.Program, fn *ssa.Function, depth int, seen map[*ssa.Function]bool) bool {
+	if fn == nil || seen[fn] || depth > 3 {
+		return false
+	}
+	seen[fn] = true
+	for _, b := range fn.Blocks {
+		for _, in := range b.Instrs {
+			switch t := in.(type) {
+			case *ssa.Send:
+				return true
+			case *ssa.Select:
+				for _, st := range t.States {
+					if st.Dir == types.SendOnly {
+						return true
+					}
+				}
+			case ssa.CallInstruction:
+				if cal := core.Callee(t.Common()); cal != nil && p.InScope(cal) && reachesSend(p, cal, depth+1, seen) {
+					return true
+				}
+			}
+		}
+	}
+	for _, a := range fn.AnonFuncs {
+		if reachesSend(p, a, depth+1, seen) {
+			return true
+		}
+	}
+	return false
 }
